@@ -8,6 +8,8 @@ from vlib.qtyops import frs
 
 PID = 'C14'
 PROPERTY_FILE = 'Properties/C14.v'
+# generated model parts (translate/) this property's model / proofs really depend on
+GEN_DEPS = ['TempTable', 'QuantityImpl']
 MODEL_TARGETS = ['Corr/C14Corr.vo']
 PROOF_TARGETS = ['Proofs/C14Proofs.vo']
 COQ_HEADER = ("From QV Require Import Model.Num Model.Rounding Model.Quantity Model.Table "
